@@ -59,3 +59,47 @@ package host
 //@   requires set != nil && setwf(set) && forall k int :: 0 <= k && k < len(hosts) ==> hosts[k] != nil
 //@   modifies all
 //@   ensures @invariant setwf(set)
+
+// ---- host statistics (C06 C15 C20): atomics through the ghost map atomu64 ------------------------------
+
+//@ func (*Stats).ConnCount
+//@   prop C06 C20
+//@   requires stats != nil
+//@   modifies nothing
+//@   ensures @active-connections result == atomu64[stats.connActive]
+
+//@ func (*Stats).IncConnCount
+//@   prop C20
+//@   requires stats != nil
+//@   modifies atomu64
+//@   ensures @total-and-active-up atomu64[stats.connTotal] == uint64(old(atomu64[stats.connTotal]) + 1) && atomu64[stats.connActive] == uint64(old(atomu64[stats.connActive]) + 1) && atomu64[stats.connDestroy] == old(atomu64[stats.connDestroy])
+
+//@ func (*Stats).DecConnCount
+//@   prop C20
+//@   requires stats != nil
+//@   modifies atomu64
+//@   ensures @destroyed-up-active-down atomu64[stats.connDestroy] == uint64(old(atomu64[stats.connDestroy]) + 1) && atomu64[stats.connActive] == uint64(old(atomu64[stats.connActive]) - 1) && atomu64[stats.connTotal] == old(atomu64[stats.connTotal])
+
+//@ func (*Stats).IncFailedCount
+//@   prop C15
+//@   requires stats != nil
+//@   modifies atomu64
+//@   ensures @failure-run-grows-success-run-resets atomu64[stats.successfulCount] == 0 && atomu64[stats.failedCount] == uint64(old(atomu64[stats.failedCount]) + 1) && result == atomu64[stats.failedCount]
+
+//@ func (*Stats).IncSuccessfulCount
+//@   prop C15
+//@   requires stats != nil
+//@   modifies atomu64
+//@   ensures @success-run-grows-failure-run-resets atomu64[stats.failedCount] == 0 && atomu64[stats.successfulCount] == uint64(old(atomu64[stats.successfulCount]) + 1) && result == atomu64[stats.successfulCount]
+
+//@ func (*Stats).setHealthy
+//@   prop C15
+//@   requires stats != nil
+//@   modifies atomu64, atombool
+//@   ensures @flip-to-healthy atomu64[stats.successfulCount] == 0 && atomu64[stats.failedCount] == 0 && result == !old(atombool[stats.isHealthy]) && atombool[stats.isHealthy]
+
+//@ func (*Stats).setUnhealthy
+//@   prop C15
+//@   requires stats != nil
+//@   modifies atomu64, atombool
+//@   ensures @flip-to-unhealthy atomu64[stats.successfulCount] == 0 && atomu64[stats.failedCount] == 0 && result == old(atombool[stats.isHealthy]) && !atombool[stats.isHealthy]
